@@ -15,7 +15,7 @@
                           inserted amplifier only touches fibres and ROADMs (none next to Fused / Transceiver)
      RunPadded pad r      a span that starts with a fibre and ends with a non-Raman fibre, without Raman fibre,
                           has loss >= pad *)
-From Verif Require Import Prelude Model.Chain Proofs.Chain Proofs.ChainNames Proofs.ChainSplit Gen.ChainGen Proofs.ChainGen.
+From Verif Require Import Prelude Model.Chain Proofs.Chain Proofs.ChainNames Proofs.ChainSplit Proofs.ChainOpt Gen.ChainGen Proofs.ChainGen.
 From Coq Require Import QArith Permutation Lia.
 Open Scope Z_scope.
 
@@ -188,6 +188,31 @@ Example C08_ex_reach : exists ls', design_net w_cfg [ex_line; mkLine Roadm "B" 1
 Proof. exact ex_reach. Qed.
 Example C08_ex_names_safe : NoDup (names (l_els ex_line)) /\ Forall safe (names (l_els ex_line)).
 Proof. exact ex_names_safe. Qed.
+
+(* ---- the entry point of the tools: worker_utils.designed_network(..., no_insert_edfas).  Without the option it is
+   design_line; with it nothing is split or inserted (same elements, same uids, same lengths, same endpoints), it never
+   fails, and still every fibre has connector losses and every span that starts with a fibre and ends with a non-Raman
+   fibre has at least the padding loss (order of the steps in the source: template-matched by harness/pygen_c08.py) ---- *)
+Theorem C08_entry_point_default : forall c l, design_line_opt false c l = design_line c l.
+Proof. exact design_line_opt_default. Qed.
+Print Assumptions C08_entry_point_default.
+Theorem C08_no_insert_connectors_and_padding : forall c l l', design_line_opt true c l = Ok l' ->
+  Forall FibOk (l_els l') /\ Forall (RunPadded (c_pad c)) (runs (l_els l')) /\
+  map ekey (l_els l') = map ekey (l_els l) /\ names (l_els l') = names (l_els l) /\
+  tot_len (l_els l') = tot_len (l_els l) /\ endpoints l' = endpoints l.
+Proof.
+  intros c l l' H. destruct (design_line_no_insert c l l' H) as (F & P & K & N & T & E).
+  split; [|split; [apply padding_ok_iff; exact P | auto]].
+  apply Forall_forall. intros e He. rewrite forallb_forall in F. specialize (F e He).
+  destruct e as [f|n lo|a]; cbn in *; auto. destruct (f_cin f), (f_cout f); try discriminate. split; eauto.
+Qed.
+Print Assumptions C08_no_insert_connectors_and_padding.
+Theorem C08_no_insert_total : forall c l, exists l', design_line_opt true c l = Ok l'.
+Proof. exact design_line_no_insert_total. Qed.
+Print Assumptions C08_no_insert_total.
+Example C08_ex_no_insert : exists l', design_line_opt true w_cfg (w_line [Fib (w_fib "f" 30 [])]) = Ok l' /\
+  names (l_els l') = ["f"]%string /\ forallb fib_ok (l_els l') = true /\ padding_ok (c_pad w_cfg) (l_els l') = true.
+Proof. exact ex_no_insert. Qed.
 
 (* ---- translator tie (harness/pygen_c08.py): the definitions g_* of Gen/ChainGen.v are re-generated on every run from
    the source of gnpy/core/network.py; each equals the corresponding part of the model.  Vocabulary (Gen/ChainGen.v,
